@@ -637,3 +637,6 @@ mutant("c01-new-tail-slice-of-self-one-too-long", ["C01"], _api("    /// All ele
 # tenth corpus: wrong versions of the owned map rebuilt on generate (D08.p3)
 mutant_on_patch("m-D08p3-map-reads-the-mirrored-element", "D08.p3", ["C08"], [("src/lib.rs", "let value = ptr::read(src.get_unchecked(i));", "let value = ptr::read(src.get_unchecked(N::USIZE - 1 - i));")], "C08.M")
 mutant_on_patch("m-D08p3-map-counts-after-the-call", "D08.p3", ["C04"], [("src/lib.rs", "                let value = ptr::read(src.get_unchecked(i));\n\n                *position += 1;\n\n                f(value)", "                let value = ptr::read(src.get_unchecked(i));\n                let r = f(value);\n                *position += 1;\n                r")], "C04")
+
+# C09.N must not call a division by a non-zero constant fallible (own probe after S242's `N::USIZE / 2`)
+benign("c09-remove-unchecked-halves-the-length", ["C09", "C03"], [("src/sequence.rs", "    unsafe fn remove_unchecked(self, idx: usize) -> (T, Self::Output) {\n        if idx >= N::USIZE || N::USIZE == 0 {\n            core::hint::unreachable_unchecked();\n        }\n", "    unsafe fn remove_unchecked(self, idx: usize) -> (T, Self::Output) {\n        if idx >= N::USIZE || N::USIZE == 0 {\n            core::hint::unreachable_unchecked();\n        }\n        let _front_half = idx < N::USIZE / 2;\n")])
